@@ -2,6 +2,7 @@
 PROP = dict(
         module='kernel', pkg='mm/vmm', pkgname='vmm', harness=['vmm/swmmu_test.go', 'vmm/c04_test.go'],
         n=dict(quick=300, thorough=6000),
+        anchors='C04.json', expr_imports=['Firefly.Gen.C04'],
         nontrivial=r'^(map|unmap|pmap|punmap|region|ident|maptmp|pinit) [^|]*\| 0 ',
         rule='one evaluation = one call of Map / Unmap / Translate / MapTemporary / MapRegion / IdentityMapRegion / '
              'PageDirectoryTable.{Init,Map,Unmap,Activate} on the real code over the software MMU, replayed through the Lean '
@@ -31,7 +32,9 @@ PROP = dict(
                    'unmapped absent, others unchanged, failures change nothing), inactive_leaves_active_bit_identical (PDT.Map on an '
                    'inactive table, every case: every word outside the inactive tree, the swapped/restored entry 511 included, is '
                    'bit-identical; the inactive space changes as map_refines says), region_pages, setframe_needs_40_bits (D13). The model '
-                   'is tied to the Go code by regenerated constants (a changed shift or mask breaks the proofs) and by a differential run '
+                   'is tied to the Go code by regenerated constants (a changed shift or mask breaks the proofs), by regenerated expressions '
+                   '(tools/exprgen: walk\'s index / entry-address / next-table arithmetic, SetFlags, ClearFlags, Frame, Frame.Address, '
+                   'Page.Address are proved equal to the model\'s terms in Tie/C04.lean, incl. the recurrence E) and by a differential run '
                    'of the real code over a software MMU with a full physical-memory comparison after every call; the property statement '
                    'is also evaluated by an independent oracle on the implementation\'s page tables.',
         level_note='Proved for the model, all cases: Map (0-3 new levels, failure anywhere), Unmap, Translate, histories, PDT.Map '
